@@ -587,3 +587,141 @@ pub fn macros(rng: &mut Rng, be: bool, is_macro: bool) -> Vec<u8> {
     }
     a.v
 }
+
+fn addr_val(rng: &mut Rng, asz: u8) -> u64 {
+    let mask = if asz >= 8 { u64::MAX } else { (1u64 << (8 * asz as u32)) - 1 };
+    match rng.below(8) {
+        0 => 0,
+        1 => 1,
+        2 => mask,
+        3 => mask - 1,
+        4 => mask - 2,
+        5 => rng.interesting() & mask,
+        _ => rng.below(0x10000) & mask,
+    }
+}
+
+fn small_expr(rng: &mut Rng) -> Vec<u8> {
+    match rng.below(5) {
+        0 => vec![],
+        1 => vec![0x50 + rng.below(32) as u8],
+        2 => vec![0x91, rng.below(128) as u8],
+        3 => vec![0x30 + rng.below(32) as u8, 0x9f],
+        _ => {
+            let n = rng.usize(6);
+            rng.bytes(n)
+        }
+    }
+}
+
+/// Lists in all encodings. Returns (debug_ranges, debug_rnglists, debug_loc, debug_loclists,
+/// offset of the first v5 list after the header).
+pub fn lists(rng: &mut Rng, be: bool, asz: u8, d64: bool, version: u16) -> (Vec<u8>, Vec<u8>, Vec<u8>, Vec<u8>, usize) {
+    let w = asz as usize;
+    let mask = if asz >= 8 { u64::MAX } else { (1u64 << (8 * asz as u32)) - 1 };
+    // legacy pairs
+    let mut r = Asm::new(be);
+    let mut l = Asm::new(be);
+    for _ in 0..1 + rng.usize(2) {
+        for _ in 0..rng.usize(6) {
+            let (b, e) = match rng.below(6) {
+                0 => (mask, addr_val(rng, asz)), // base address selection
+                1 => {
+                    let x = addr_val(rng, asz);
+                    (x, x)
+                }
+                2 => (addr_val(rng, asz), addr_val(rng, asz)),
+                _ => {
+                    let x = rng.below(0x1000) & mask;
+                    (x, (x + 1 + rng.below(0x100)) & mask)
+                }
+            };
+            r.uint(b, w).uint(e, w);
+            l.uint(b, w).uint(e, w);
+            if b != mask && !(b == 0 && e == 0) {
+                let x = small_expr(rng);
+                let len = if rng.chance(1, 16) { rng.interesting() as u16 } else { x.len() as u16 };
+                l.u16(len).bytes(&x);
+            }
+        }
+        if !rng.chance(1, 8) {
+            r.uint(0, w).uint(0, w);
+            l.uint(0, w).uint(0, w);
+        }
+    }
+    // v5 (or GNU split-dwarf LLE in .debug_loc when version <= 4: 2-byte lengths)
+    let mut rl = Asm::new(be);
+    let mut ll = Asm::new(be);
+    let mut first = 0usize;
+    for (is_loc, a) in [(false, &mut rl), (true, &mut ll)] {
+        let tok = a.begin_len(d64);
+        a.u16(5).u8(asz).u8(0);
+        let n_off = rng.usize(3) as u32;
+        a.u32(n_off);
+        let table_at = a.len();
+        for _ in 0..n_off {
+            a.word(0, d64);
+        }
+        if !is_loc {
+            first = a.len();
+        }
+        let nlists = 1 + rng.usize(2);
+        for li in 0..nlists {
+            if (li as u32) < n_off {
+                let rel = (a.len() - table_at) as u64;
+                a.patch_uint(table_at + li * if d64 { 8 } else { 4 }, if rng.chance(1, 12) { rng.interesting() } else { rel }, if d64 { 8 } else { 4 });
+            }
+            for _ in 0..rng.usize(6) {
+                let kind = if rng.chance(1, 16) { rng.next() as u8 } else { 1 + rng.below(if is_loc { 8 } else { 7 }) as u8 };
+                a.u8(kind);
+                let mut has_data = is_loc;
+                match kind {
+                    1 => {
+                        a.uleb(if rng.chance(1, 8) { rng.interesting() } else { rng.below(6) });
+                        has_data = false;
+                    }
+                    2 => {
+                        a.uleb(rng.below(6)).uleb(if rng.chance(1, 8) { rng.interesting() } else { rng.below(6) });
+                    }
+                    3 => {
+                        a.uleb(rng.below(6)).uleb(if rng.chance(1, 4) { rng.interesting() } else { rng.below(0x100) });
+                    }
+                    4 => {
+                        let b = rng.below(0x1000);
+                        a.uleb(b).uleb(if rng.chance(1, 6) { rng.interesting() } else { b + rng.below(0x100) });
+                    }
+                    5 if is_loc => {}
+                    5 | 6 if (kind == 5 && !is_loc) || (kind == 6 && is_loc) => {
+                        a.uint(addr_val(rng, asz), w);
+                        has_data = false;
+                    }
+                    6 | 7 if (kind == 6 && !is_loc) || (kind == 7 && is_loc) => {
+                        let b = addr_val(rng, asz);
+                        a.uint(b, w).uint(if rng.bool() { addr_val(rng, asz) } else { b.wrapping_add(rng.below(64)) & mask }, w);
+                    }
+                    7 | 8 => {
+                        a.uint(addr_val(rng, asz), w).uleb(if rng.chance(1, 4) { rng.interesting() } else { rng.below(0x100) });
+                    }
+                    _ => {
+                        has_data = false;
+                    }
+                }
+                if has_data {
+                    let x = small_expr(rng);
+                    if version >= 5 {
+                        a.uleb(if rng.chance(1, 16) { rng.interesting() } else { x.len() as u64 });
+                    } else {
+                        a.u16(x.len() as u16);
+                    }
+                    a.bytes(&x);
+                }
+            }
+            if !rng.chance(1, 8) {
+                a.u8(0);
+            }
+        }
+        let d = lie(rng);
+        a.end_len(tok, d);
+    }
+    (r.v, rl.v, l.v, ll.v, first)
+}
